@@ -19,12 +19,16 @@ TopKOK(all, kept, k) ==      \* kept = k highest-scoring of all (ties: any)
     /\ \A a \in 1..Len(kept) : \E b \in 1..Len(all) : all[b].cls = kept[a].cls
     /\ \A b \in 1..Len(all) : (\A a \in 1..Len(kept) : kept[a].cls # all[b].cls) =>
             \A a \in 1..Len(kept) : kept[a].score >= all[b].score
+\* an instance's score is part of the prediction: same instance (coordinate class), same score up to 0.002 (scores in 1e-6)
+AbsD(a, b) == IF a >= b THEN a - b ELSE b - a
+ScoresAgree(x, y) == \A a \in 1..Len(x) : \E b \in 1..Len(y) : y[b].cls = x[a].cls /\ AbsD(y[b].score, x[a].score) <= 2000
 Clause(c) ==
     IF c.raised # "" THEN "raised"
     ELSE IF \E j \in 1..Len(c.recs) : ~InBatch(c, c.recs[j].fid) THEN "record_for_frame_not_in_batch"
     ELSE IF \E f \in 0..(Len(c.single) - 1) : Cardinality(RecsOf(c, f)) > 1 THEN "frame_reported_twice"
     ELSE IF \E j \in 1..Len(c.batch) : c.animals[c.batch[j] + 1] = 0 /\ Len(Attr(c, c.batch[j])) > 0 THEN "empty_frame_has_instances"
     ELSE IF \E j \in 1..Len(c.batch) : Bag(Attr(c, c.batch[j])) # Bag(c.singlek[c.batch[j] + 1]) THEN "result_depends_on_batch_mates"
+    ELSE IF \E j \in 1..Len(c.batch) : ~ScoresAgree(Attr(c, c.batch[j]), c.singlek[c.batch[j] + 1]) THEN "score_depends_on_batch_mates"
     ELSE IF c.k > 0 /\ \E j \in 1..Len(c.batch) : ~TopKOK(c.single[c.batch[j] + 1], c.singlek[c.batch[j] + 1], c.k) THEN "kept_instances_not_highest_scoring"
     ELSE IF c.k = 0 /\ \E j \in 1..Len(c.batch) : Len(c.single[c.batch[j] + 1]) # c.animals[c.batch[j] + 1] THEN "singleton_result_count_differs_from_labels"
     ELSE "ok"
